@@ -404,6 +404,14 @@ def greedy_callers_lib(ctx, mode):
             st.events.append(("argwhere", st.get(r).filter_of, as_array(args[0], st)))
         return r
     L.functions["np.argwhere"] = _argwhere
+    base_flatnonzero = L.functions["np.flatnonzero"]
+
+    def _flatnonzero(E, st, args, kw, node):
+        r = base_flatnonzero(E, st, args, kw, node)
+        if isinstance(r, Ref) and hasattr(st.get(r), "filter_of"):
+            st.events.append(("argwhere", st.get(r).filter_of, as_array(args[0], st)))
+        return r
+    L.functions["np.flatnonzero"] = _flatnonzero
     return L
 
 
